@@ -1,0 +1,126 @@
+//go:build verif
+// +build verif
+
+// Verification hook (build tag verif, add-only): dump of the live jump table the
+// interpreter would use at a given block height. Nothing here is compiled into a
+// normal build.
+package vm
+
+import (
+	"math/big"
+	"reflect"
+	"runtime"
+	"strings"
+
+	"github.com/holiman/uint256"
+)
+
+// VerifOpInfo describes one slot of the jump table as the interpreter sees it.
+type VerifOpInfo struct {
+	Op          byte
+	Defined     bool
+	Mnemonic    string // OpCode.String()
+	Exec        string // name of the execute function (closures: "...makePush.func1")
+	ConstantGas uint64
+	MinStack    int
+	MaxStack    int
+	MemorySize  string // name of the memorySize function, "" if nil
+	DynamicGas  string // name of the dynamicGas function, "" if nil
+	Halts       bool
+	Jumps       bool
+	Writes      bool
+	Reverts     bool
+	Returns     bool
+	// Behavioural probe of closure-made execute functions, whose parameters are
+	// not visible through reflection:
+	//   makePush.funcN : P1 = pc advance (size), P2 = number of code bytes pushed
+	//   makeDup.funcN  : P1 = n (item duplicated, 1 = top), P2 = stack growth
+	//   makeSwap.funcN : P1 = n (top swapped with the item n below it), P2 = stack growth
+	P1, P2 int
+	// memoryCopierGas.funcN : stack position of the length operand, else -1
+	DynP int
+}
+
+func verifFuncName(f interface{}) string {
+	v := reflect.ValueOf(f)
+	if v.IsNil() {
+		return ""
+	}
+	n := runtime.FuncForPC(v.Pointer()).Name()
+	if i := strings.LastIndex(n, "/vm."); i >= 0 {
+		n = n[i+4:]
+	}
+	return n
+}
+
+// VerifJumpTableAt returns the jump table NewEVMInterpreter builds for an EVM
+// whose BlockNumber is height (fork gates read common.LocalChainConfig, which the
+// caller may set beforehand).
+func VerifJumpTableAt(height uint64) [256]VerifOpInfo {
+	evm := &EVM{Context: Context{BlockNumber: new(big.Int).SetUint64(height)}}
+	in := NewEVMInterpreter(evm)
+	var out [256]VerifOpInfo
+	for i := 0; i < 256; i++ {
+		o := in.jumpTable[i]
+		info := VerifOpInfo{Op: byte(i), Mnemonic: OpCode(i).String(), DynP: -1}
+		if o == nil {
+			out[i] = info
+			continue
+		}
+		info.Defined = true
+		info.Exec = verifFuncName(o.execute)
+		info.ConstantGas = o.constantGas
+		info.MinStack = o.minStack
+		info.MaxStack = o.maxStack
+		info.MemorySize = verifFuncName(o.memorySize)
+		info.DynamicGas = verifFuncName(o.dynamicGas)
+		info.Halts, info.Jumps, info.Writes, info.Reverts, info.Returns = o.halts, o.jumps, o.writes, o.reverts, o.returns
+		switch {
+		case strings.Contains(info.Exec, "makePush.func"):
+			code := make([]byte, 80)
+			for k := range code {
+				code[k] = byte(k + 1)
+			}
+			st := &Stack{}
+			ctx := &callCtx{stack: st, memory: NewMemory(), contract: &Contract{Code: code}}
+			pc := uint64(0)
+			o.execute(&pc, in, ctx)
+			info.P1 = int(pc)
+			info.P2 = st.peek().ByteLen()
+		case strings.Contains(info.Exec, "makeDup.func"), strings.Contains(info.Exec, "makeSwap.func"):
+			st := &Stack{}
+			for k := 1; k <= 17; k++ {
+				st.push(new(uint256.Int).SetUint64(uint64(k)))
+			}
+			ctx := &callCtx{stack: st, memory: NewMemory(), contract: &Contract{}}
+			pc := uint64(0)
+			o.execute(&pc, in, ctx)
+			top := int(st.peek().Uint64())
+			if strings.Contains(info.Exec, "makeDup.func") {
+				info.P1 = 17 - top + 1
+				info.P2 = st.len() - 17
+			} else {
+				info.P1 = 17 - top
+				info.P2 = st.len() - 17
+			}
+		}
+		if strings.Contains(info.DynamicGas, "memoryCopierGas.func") {
+			for pos := 0; pos < 4; pos++ {
+				st := &Stack{}
+				for k := 3; k >= 0; k-- {
+					v := new(uint256.Int)
+					if k == pos {
+						v.SetAllOne()
+					}
+					st.push(v)
+				}
+				if _, err := o.dynamicGas(evm, &Contract{}, st, NewMemory(), 0); err != nil {
+					info.DynP = pos
+					break
+				}
+			}
+		}
+		out[i] = info
+	}
+	return out
+}
